@@ -22,6 +22,12 @@ type RawXMLValue struct {
 
 // NewRawXMLElement creates a new RawXMLValue for an element.
 func NewRawXMLElement(name xml.Name, attr []xml.Attr, children []RawXMLValue) *RawXMLValue {
+	if name.Space == "" {
+		// encoding/xml writes an unqualified name without any declaration:
+		// undeclare the default namespace, or the element would inherit the
+		// one of the element it ends up in
+		attr = append(attr[:len(attr):len(attr)], xml.Attr{Name: xml.Name{Local: "xmlns"}})
+	}
 	return &RawXMLValue{tok: xml.StartElement{name, attr}, children: children}
 }
 
